@@ -297,7 +297,7 @@ Proof.
   destruct (save (preA ++ post ++ appA)) as [d1|] eqn:Es1.
   2:{ destruct (save_good _ HgA) as [d Hd]. rewrite Hd in Es1. discriminate Es1. }
   destruct seq.
-  - destruct (wait_loop (Datatypes.S (length sc)) x sc lg) as [[[x' sc2] lg2] o] eqn:Ew.
+  - destruct (wait_loop (Datatypes.S (length sc)) x sc _) as [[[x' sc2] lg2] o] eqn:Ew.
     destruct (wait_loop_restat _ _ _ _ _ _ _ _ Ew) as [s [e ->]].
     pose proof (Hshape (restat x s e)) as Hy_shape.
     destruct (place rerun repl pre app old (restat x s e)) as [preB appB] eqn:EB. simpl in Hy_shape.
@@ -421,60 +421,35 @@ Qed.
 (* machine invariant between operations *)
 Definition MInv (ex : bool) (m : mach) : Prop := LInv ex (mem m) (disk m) (udirty m).
 
-Lemma upd_loop_weak : forall post pre dk sc lg l' dk' sc' lg' o,
-  Forall good (pre ++ post) -> skel (pre ++ post) dk -> DiskOk dk ->
-  upd_loop pre post dk sc lg = (l', dk', sc', lg', o) ->
-  Forall good l' /\ skel l' dk' /\ DiskOk dk'.
+(* 9afb11d4: on leaving the launch loop, normally or by an exception, the group is written once more iff its image
+   differs from the file; either way the file is exact afterwards, memory / script / outcome are untouched *)
+Lemma finish_exact m o m' o' : Forall good (mem m) -> finish cur (m, o) = (m', o') ->
+  mem m' = mem m /\ scr m' = scr m /\ o' = o /\ Exact m'.
 Proof.
-  induction post as [|j post IH]; intros pre dk sc lg l' dk' sc' lg' o Hg HS HD H; simpl in H.
-  - inversion H; subst. rewrite app_nil_r in *. repeat split; assumption.
-  - destruct (polls j) eqn:Ep.
-    + destruct (poll j sc) as [r sc1] eqn:Epoll.
-      pose proof (Forall_mid _ _ _ _ Hg) as Hj. pose proof (polls_sent _ Ep) as Hs.
-      assert (Hrep : forall s e, Forall good (pre ++ restat j s e :: post) /\ skel (pre ++ restat j s e :: post) dk).
-      { intros s e. split; [eapply Forall_replace; [exact Hg|apply restat_good; assumption]|].
-        unfold skel in *. rewrite (skel_replace pre j); [assumption|reflexivity|reflexivity]. }
-      destruct (poll_restat _ _ _ _ Epoll) as [[s [e ->]]|[e ->]].
-      * destruct (Hrep s e) as [Hg' Hk'].
-        destruct (changed j (restat j s e)) eqn:Ec.
-        -- destruct (save (pre ++ restat j s e :: post)) as [d|] eqn:Es.
-           ++ eapply IH; [| | |exact H]; try rewrite app_cons_assoc; try assumption.
-              ** apply save_skeleton; exact Es.
-              ** eexists; split; eassumption.
-           ++ destruct (save_good _ Hg') as [d Hd]. rewrite Hd in Es. discriminate Es.
-        -- eapply IH; [| | |exact H]; try rewrite app_cons_assoc; assumption.
-      * inversion H; subst. destruct (Hrep (jst j) e) as [Hg' Hk']. repeat split; assumption.
-    + eapply IH; [| | |exact H]; try rewrite app_cons_assoc; assumption.
+  intros Hg H. unfold finish in H. cbn [write_on_exit cur] in H.
+  destruct (save_good _ Hg) as [d Hd]. rewrite Hd in H.
+  destruct (djobs_eq_dec d (disk m)) as [E|E]; inversion H; subst; unfold Exact; simpl; repeat split; try reflexivity;
+    exact Hd.
 Qed.
 
-Lemma update_statuses_weak ex m m' o :
-  Forall good (mem m) -> skeleton m -> DiskOk (disk m) -> (ex = true -> Exact m) -> update_statuses m = (m', o) ->
-  Forall good (mem m') /\ skeleton m' /\ DiskOk (disk m') /\ (ex = true -> Exact m') /\ udirty m' = udirty m.
+Lemma launch_exact rerun seq repl m m' o : Forall good (mem m) -> Exact m -> launch cur rerun seq repl m = (m', o) ->
+  Forall good (mem m') /\ Exact m'.
 Proof.
-  unfold update_statuses, Exact, skeleton. intros Hg Hk HD HS H.
-  destruct (upd_loop [] (mem m) (disk m) (scr m) (rlog m)) as [[[[l d] sc] lg] o'] eqn:E.
-  inversion H; subst; simpl.
-  destruct (upd_loop_weak (mem m) [] _ _ _ _ _ _ _ _ Hg Hk HD E) as (H1 & H2 & H3).
-  repeat split; try assumption.
-  intros Ex. destruct (upd_loop_inv (mem m) [] _ _ _ _ _ _ _ _ Hg (HS Ex) E) as [_ H4]. exact H4.
-Qed.
-
-Lemma LInv_start ex m : Forall good (mem m) -> skeleton m -> DiskOk (disk m) -> (ex = true -> Exact m) ->
-  LInv ex (mem m) (disk m) false.
-Proof. intros Hg Hk HD HS. split; [exact Hg|]. split; [exact Hk|]. split; [intros Ex _; exact (HS Ex)|exact HD]. Qed.
-
-Lemma launch_inv ex rerun seq repl m m' o :
-  Forall good (mem m) -> skeleton m -> DiskOk (disk m) -> (ex = true -> Exact m) ->
-  launch cur rerun seq repl m = (m', o) -> MInv ex m'.
-Proof.
-  intros Hg Hk HD HS H. unfold launch in H. destruct rerun.
+  intros Hg HS H. unfold launch in H.
+  assert (Hloop : forall m0, Forall good (mem m0) -> Exact m0 ->
+            finish cur (launch_loop cur rerun seq repl [] (mem m0) [] (disk m0) (scr m0) (rlog m0) false) = (m', o) ->
+            Forall good (mem m') /\ Exact m').
+  { intros m0 Hg0 HS0 Hf.
+    destruct (launch_loop cur rerun seq repl [] (mem m0) [] (disk m0) (scr m0) (rlog m0) false) as [m2 o2] eqn:El.
+    assert (HI : LInv false (mem m2) (disk m2) (udirty m2)).
+    { eapply launch_loop_inv; [|exact El]. simpl. rewrite app_nil_r. apply LInv_written; assumption. }
+    destruct HI as (Hg2 & _). destruct (finish_exact _ _ _ _ Hg2 Hf) as (Hm & _ & _ & He).
+    split; [rewrite Hm; exact Hg2|exact He]. }
+  destruct rerun.
   - destruct (update_statuses m) as [m1 o1] eqn:Eu.
-    destruct (update_statuses_weak ex _ _ _ Hg Hk HD HS Eu) as (Hg1 & Hk1 & HD1 & HS1 & _).
-    destruct o1.
-    + eapply launch_loop_inv; [|exact H]. simpl. rewrite app_nil_r. apply LInv_start; assumption.
-    + inversion H; subst. destruct (LInv_start ex m' Hg1 Hk1 HD1 HS1) as (A & B & C & D).
-      split; [exact A|]. split; [exact B|]. split; [|exact D]. intros Ex _. exact (HS1 Ex).
-  - eapply launch_loop_inv; [|exact H]. simpl. rewrite app_nil_r. apply LInv_start; assumption.
+    destruct (update_statuses_inv _ _ _ Hg HS Eu) as (Hg1 & HS1 & _).
+    destruct o1; [apply (Hloop m1); assumption|]. inversion H; subst. split; assumption.
+  - apply (Hloop m); assumption.
 Qed.
 
 Lemma handle_params_keeps j kms kbad j' : handle_params j kms kbad = Some j' -> jid j' = jid j /\ jst j' = jst j.
@@ -538,171 +513,64 @@ Proof.
   apply (no_duplicate_id m j i); [exact Ei|]. rewrite <- Ei. apply in_map. eapply nth_error_In; exact Hn.
 Qed.
 
-(* the main step lemma, for EVERY operation (no admissibility condition on the jobs). With ex = true: from an exact
-   file, the operation (returning or raising) leaves all jobs good and the file exact unless it reports an unwritten
-   status change through the ghost flag. With ex = false: from any reachable state, identifiers and metadata on disk
-   are those of memory and the file is the image of good jobs. *)
-Theorem step_inv ex m o m' out :
-  Forall good (mem m) -> skeleton m -> DiskOk (disk m) -> (ex = true -> Exact m) -> step cur m o = (m', out) ->
-  Forall good (mem m') /\ skeleton m' /\ DiskOk (disk m') /\ (ex = true -> udirty m' = false -> Exact m').
+Lemma Exact_skeleton m : Exact m -> skeleton m.
+Proof. intros H. apply save_skeleton. exact H. Qed.
+
+(* the main step lemma, for EVERY operation, EVERY job and EVERY server script: from an exact file, the operation —
+   whether it returns or raises — leaves all jobs well-formed and the file the exact image of memory *)
+Theorem step_exact m o m' out :
+  Forall good (mem m) -> Exact m -> step cur m o = (m', out) -> Forall good (mem m') /\ Exact m'.
 Proof.
-  intros Hg Hk HD HS H. unfold step in H. destruct o as [|s pre kms kbad|seq|seq repl| |k].
-  - inversion H; subst; simpl. destruct HD as (l0 & Hg0 & Hs0). destruct (roundtrip_list _ _ Hg0 Hs0) as [H1 H2].
-    split; [exact H2|]. split; [apply save_skeleton; exact H1|]. split; [exists l0; split; assumption|intros _ _; exact H1].
+  intros Hg HS H. unfold step in H. destruct o as [|s pre kms kbad|seq|seq repl| |k].
+  - inversion H; subst. destruct (roundtrip_list _ _ Hg HS) as [H1 H2]. split; [exact H2|exact H1].
   - simpl in H.
     assert (Hadd : forall j sc lg, jwf j ->
-              add_job cur (mkm (mem m) (disk m) sc lg false) j kms kbad = (m', out) ->
-              Forall good (mem m') /\ skeleton m' /\ DiskOk (disk m') /\ (ex = true -> udirty m' = false -> Exact m')).
+              add_job cur (mkm (mem m) (disk m) sc lg false) j kms kbad = (m', out) -> Forall good (mem m') /\ Exact m').
     { intros j sc lg Hw Ha. destruct (add_job_cases _ _ _ _ _ _ Hw Ha) as [[-> _]|(j' & Hj' & _ & Hm & Hcase)].
-      - simpl. repeat split; try assumption. intros Ex _. exact (HS Ex).
+      - split; assumption.
       - assert (Hg' : Forall good (mem m')).
         { rewrite Hm. simpl. rewrite Forall_app. split; [exact Hg|constructor; [exact Hj'|constructor]]. }
-        destruct Hcase as [(Hs & _ & _)|(Hs & _ & _)].
-        + split; [exact Hg'|]. split; [apply save_skeleton; exact Hs|]. split; [exists (mem m'); split; assumption|intros _ _; exact Hs].
-        + destruct (save_good _ Hg') as [d Hd]. rewrite Hd in Hs. discriminate Hs. }
+        destruct Hcase as [(Hs & _ & _)|(Hs & _ & _)]; [split; assumption|].
+        destruct (save_good _ Hg') as [d Hd]. rewrite Hd in Hs. discriminate Hs. }
     destruct pre.
     + destruct (pre_exec (job_of_spec s) (scr m) (rlog m)) as [[j sc] lg] eqn:Ep.
       eapply Hadd; [|exact H]. eapply pre_exec_keeps; [exact Ep|reflexivity].
     + eapply Hadd; [|exact H]. intros _; discriminate.
-  - apply (launch_inv ex) in H; try assumption. destruct H as (A & B & C & D). repeat split; assumption.
-  - apply (launch_inv ex) in H; try assumption. destruct H as (A & B & C & D). repeat split; assumption.
-  - apply (update_statuses_weak ex) in H; try assumption. destruct H as (A & B & C & D & E).
-    repeat split; try assumption. intros Ex _. exact (D Ex).
+  - eapply (launch_exact _ _ _ (mkm (mem m) (disk m) (scr m) (rlog m) false)); [| |exact H]; assumption.
+  - eapply (launch_exact _ _ _ (mkm (mem m) (disk m) (scr m) (rlog m) false)); [| |exact H]; assumption.
+  - destruct (update_statuses_inv (mkm (mem m) (disk m) (scr m) (rlog m) false) _ _ Hg HS H) as (A & B & _). split; assumption.
   - cbn [mem] in H.
-    assert (Hsame : (m', out) = (mkm (mem m) (disk m) (scr m) (rlog m) false, out) ->
-                    Forall good (mem m') /\ skeleton m' /\ DiskOk (disk m') /\ (ex = true -> udirty m' = false -> Exact m')).
-    { intros E. inversion E; subst; simpl. repeat split; try assumption. intros Ex _. exact (HS Ex). }
-    destruct (nth_error (mem m) k) as [j|] eqn:En; [|inversion H; subst; apply Hsame; reflexivity].
-    destruct (sent j) eqn:Es; [|inversion H; subst; apply Hsame; reflexivity].
+    destruct (nth_error (mem m) k) as [j|] eqn:En; [|inversion H; subst; split; assumption].
+    destruct (sent j) eqn:Es; [|inversion H; subst; split; assumption].
     rewrite (readd_refused (mkm (mem m) (disk m) (scr m) (rlog m) false) k j En Es) in H.
-    inversion H; subst. apply Hsame. reflexivity.
+    inversion H; subst. split; assumption.
 Qed.
 
 (* ------------------------------------------------------------------ histories *)
-(* no operation of the history reported an unwritten status change *)
-Fixpoint quiet (m : mach) (ops : list op) : Prop :=
-  match ops with
-  | [] => True
-  | o :: r => udirty (fst (step cur m o)) = false /\ quiet (fst (step cur m o)) r
-  end.
-
-Lemma Exact_skeleton m : Exact m -> skeleton m.
-Proof. intros H. apply save_skeleton. exact H. Qed.
-Lemma Exact_DiskOk m : Forall good (mem m) -> Exact m -> DiskOk (disk m).
-Proof. intros Hg H. exists (mem m). split; assumption. Qed.
-
-Lemma run_weak : forall ops m, Forall good (mem m) -> skeleton m -> DiskOk (disk m) ->
-  Forall good (mem (run cur m ops)) /\ skeleton (run cur m ops) /\ DiskOk (disk (run cur m ops)).
-Proof.
-  induction ops as [|o r IH]; intros m Hg Hk HD; simpl.
-  - repeat split; assumption.
-  - destruct (step cur m o) as [m' out] eqn:E. simpl.
-    destruct (step_inv false m o m' out Hg Hk HD) as (A & B & C & _); [intros Hn; discriminate Hn|exact E|].
-    apply IH; assumption.
-Qed.
-
-Lemma run_exact : forall ops m, Forall good (mem m) -> Exact m -> quiet m ops ->
-  Forall good (mem (run cur m ops)) /\ Exact (run cur m ops).
-Proof.
-  induction ops as [|o r IH]; intros m Hg HS Hq; simpl.
-  - split; assumption.
-  - destruct Hq as [Hq1 Hq2]. destruct (step cur m o) as [m' out] eqn:E. simpl in *.
-    destruct (step_inv true m o m' out Hg (Exact_skeleton _ HS) (Exact_DiskOk _ Hg HS)) as (A & B & C & D);
-      [intros _; exact HS|exact E|].
-    apply IH; try assumption. apply D; [reflexivity|exact Hq1].
-Qed.
-
-Lemma quiet_app : forall a b m, quiet m (a ++ b) -> quiet m a.
-Proof. induction a as [|o r IH]; simpl; intros b m H; [exact Logic.I|]. destruct H as [H1 H2]. split; [exact H1|eapply IH; exact H2]. Qed.
-
 Lemma init_good sc : Forall good (mem (init sc)) /\ Exact (init sc).
 Proof. split; [constructor|reflexivity]. Qed.
 
-(* T-core 1: after every operation of EVERY history (any jobs, any keyword arguments), for every server script, as
-   long as no operation reported an unwritten status change, the file is exactly the image of memory and re-opening
-   the group yields the same observable job list. (Partial only because of the open launch-loop finding: the `quiet`
-   hypothesis cannot be dropped, see the two remaining counterexamples.) *)
-Theorem disk_matches_memory_partial : forall sc ops1 ops2,
-  quiet (init sc) (ops1 ++ ops2) ->
-  Exact (run cur (init sc) ops1) /\ reload_equiv (run cur (init sc) ops1).
+Lemma run_exact : forall ops m, Forall good (mem m) -> Exact m -> Forall good (mem (run cur m ops)) /\ Exact (run cur m ops).
 Proof.
-  intros sc ops1 ops2 Hq. apply quiet_app in Hq.
-  destruct (init_good sc) as [Hg HS]. destruct (run_exact ops1 (init sc) Hg HS Hq) as [A B].
+  induction ops as [|o r IH]; intros m Hg HS; simpl; [split; assumption|].
+  destruct (step cur m o) as [m' out] eqn:E. simpl.
+  destruct (step_exact m o m' out Hg HS E) as [A B]. apply IH; assumption.
+Qed.
+
+(* T-core 1, in FULL: after every operation of every history (every prefix ops1 of it), for every server script and
+   whether the operations return or raise, the file is exactly the image of memory and re-opening the group by name
+   yields the same observable job list (identifiers, status of sent jobs, metadata, request body unless successful) *)
+Theorem disk_matches_memory : forall sc ops,
+  Exact (run cur (init sc) ops) /\ reload_equiv (run cur (init sc) ops).
+Proof.
+  intros sc ops. destruct (init_good sc) as [Hg HS]. destruct (run_exact ops (init sc) Hg HS) as [A B].
   split; [exact B|apply Exact_reload_equiv; assumption].
 Qed.
 
-(* operations that can never leave an unwritten status change *)
-Definition calm_op (o : op) : Prop := match o with ORun true | ORerun _ _ => False | _ => True end.
-
-Lemma launched_par_clean repl pre post app dk old x sc lg :
-  match launched false false repl pre post app dk false old x sc lg with
-  | LCont _ _ _ _ _ d => d = false
-  | LStop m _ => udirty m = false
-  end.
-Proof.
-  unfold launched. destruct (place false repl pre app old x) as [a b].
-  destruct (save (a ++ post ++ b)); reflexivity.
-Qed.
-
-Lemma launch_par_clean repl : forall post pre app dk sc lg,
-  udirty (fst (launch_loop cur false false repl pre post app dk sc lg false)) = false.
-Proof.
-  induction post as [|j post IH]; intros pre app dk sc lg; simpl; [reflexivity|].
-  unfold launch_one. destruct (sent j); [apply IH|].
-  destruct (negb (waiting (jst j))); [reflexivity|].
-  destruct (eff_body j); [|reflexivity]. destruct (pop sc) as [a sc1]. destruct a; try reflexivity.
-  pose proof (launched_par_clean repl pre post app dk j (set_st (set_id j id) WAITING) sc1 (lg ++ [RCreate b])) as H.
-  destruct (launched false false repl pre post app dk false j (set_st (set_id j id) WAITING) sc1 (lg ++ [RCreate b])).
-  - subst. apply IH.
-  - exact H.
-Qed.
-
-Lemma add_job_clean m j kms kbad : udirty m = false -> udirty (fst (add_job cur m j kms kbad)) = false.
-Proof.
-  intros Hd. unfold add_job.
-  destruct (match jid j with Some i => zmem i (map jid (mem m)) | None => false end); [exact Hd|].
-  cbn [add_validates cur orb].
-  destruct (handle_params j kms kbad) as [j'|]; [|exact Hd]. destruct (eff_body j'); [|exact Hd].
-  destruct (save (mem m ++ [j'])); simpl; [reflexivity|exact Hd].
-Qed.
-
-Lemma calm_step_clean m o : calm_op o -> udirty (fst (step cur m o)) = false.
-Proof.
-  destruct o as [|s pre kms kbad|seq|seq repl| |k]; intros Hc; unfold step.
-  - reflexivity.
-  - destruct pre.
-    + destruct (pre_exec (job_of_spec s) _ _) as [[j sc] lg]. apply add_job_clean. reflexivity.
-    + apply add_job_clean. reflexivity.
-  - destruct seq; [destruct Hc|]. unfold launch. apply launch_par_clean.
-  - destruct Hc.
-  - unfold update_statuses. simpl. destruct (upd_loop _ _ _ _ _) as [[[[l d] sc] lg] o]. reflexivity.
-  - cbn [mem]. destruct (nth_error (mem m) k) as [j|]; [|reflexivity]. destruct (sent j); [|reflexivity].
-    apply add_job_clean. reflexivity.
-Qed.
-
-Lemma calm_quiet : forall ops m, Forall calm_op ops -> quiet m ops.
-Proof.
-  induction ops as [|o r IH]; intros m H; simpl; [exact Logic.I|]. inversion H; subst.
-  split; [apply calm_step_clean; assumption|apply IH; assumption].
-Qed.
-
-(* re-open, add, run_parallel, progress/list_*: the file is exact after every operation, unconditionally *)
-Theorem disk_matches_memory_calm : forall sc ops,
-  Forall calm_op ops -> Exact (run cur (init sc) ops) /\ reload_equiv (run cur (init sc) ops).
-Proof.
-  intros sc ops Hc. apply (disk_matches_memory_partial sc ops []). rewrite app_nil_r. apply calm_quiet; exact Hc.
-Qed.
-
 (* T-core 2: identifiers (and platform metadata) on disk are those of memory after every operation of every history,
-   returning or raising, flagged or not: a job accepted before a refusal keeps its identifier on disk; and whatever
-   is on disk is the image of good jobs, so that re-opening restores an exact state *)
-Theorem accepted_ids_survive : forall sc ops,
-  skeleton (run cur (init sc) ops) /\ Exact (fst (step cur (run cur (init sc) ops) OReopen)).
-Proof.
-  intros sc ops. destruct (init_good sc) as [Hg HS].
-  destruct (run_weak ops (init sc) Hg (Exact_skeleton _ HS) (Exact_DiskOk _ Hg HS)) as (A & B & (l0 & C1 & C2)).
-  split; [exact B|]. unfold step, Exact; simpl. destruct (roundtrip_list _ _ C1 C2) as [H _]. exact H.
-Qed.
+   returning or raising: a job accepted before a refusal keeps its identifier on disk *)
+Theorem accepted_ids_survive : forall sc ops, skeleton (run cur (init sc) ops).
+Proof. intros sc ops. apply Exact_skeleton. apply disk_matches_memory. Qed.
 
 (* T-core 3: what would be sent for a not-yet-successful job is the same from memory and from the re-opened group *)
 Lemma reload_body j d : good j -> to_disk j = Some d -> success (jst j) = false -> eff_body (from_disk cur d) = eff_body j.
@@ -727,13 +595,11 @@ Proof.
     + intros Hs. eapply reload_body; eassumption.
 Qed.
 
-Theorem request_same_after_reopen : forall sc ops1 ops2,
-  quiet (init sc) (ops1 ++ ops2) ->
-  let m := run cur (init sc) ops1 in
+Theorem request_same_after_reopen : forall sc ops,
+  let m := run cur (init sc) ops in
   Forall2 (fun j j' => jid j' = jid j /\ (success (jst j) = false -> eff_body j' = eff_body j)) (mem m) (load cur (disk m)).
 Proof.
-  intros sc ops1 ops2 Hq m. apply quiet_app in Hq.
-  destruct (init_good sc) as [Hg HS]. destruct (run_exact ops1 (init sc) Hg HS Hq) as [A B].
+  intros sc ops m. destruct (init_good sc) as [Hg HS]. destruct (run_exact ops (init sc) Hg HS) as [A B].
   apply request_same_list; assumption.
 Qed.
 
@@ -877,9 +743,9 @@ Proof.
     destruct (polls j).
     + destruct (poll j sc) as [r sc1] eqn:Epoll.
       destruct (poll_restat _ _ _ _ Epoll) as [[s [e ->]]|[e ->]].
-      * assert (Hgo : forall d, upd_loop (pre ++ [restat j s e]) post d sc1 (lg ++ [RStatus (jid j)]) = (l', dk', sc', lg', o) ->
+      * assert (Hgo : forall d lgx, upd_loop (pre ++ [restat j s e]) post d sc1 lgx = (l', dk', sc', lg', o) ->
                        map jid l' = map jid (pre ++ j :: post) /\ forall i, (occ i (scids sc') <= occ i (scids sc))%nat).
-        { intros d Hd. destruct (IH _ _ _ _ _ _ _ _ _ Hd) as [A B]. rewrite app_cons_assoc in A. rewrite A, Hrep.
+        { intros d lgx Hd. destruct (IH _ _ _ _ _ _ _ _ _ Hd) as [A B]. rewrite app_cons_assoc in A. rewrite A, Hrep.
           split; [reflexivity|]. intros i. specialize (B i). pose proof (poll_occ _ _ _ _ i Epoll). lia. }
         destruct (changed j (restat j s e)).
         -- destruct (save (pre ++ restat j s e :: post)) as [d|].
@@ -920,12 +786,12 @@ Proof.
   unfold launched, place. destruct (rerun && negb repl).
   - destruct (save ((pre ++ [old]) ++ post ++ app ++ [x])); [|simpl; norm; simpl; lia].
     destruct seq; [|simpl; norm; simpl; lia].
-    destruct (wait_loop (Datatypes.S (length sc)) x sc lg) as [[[x' sc2] lg2] o] eqn:Ew.
+    destruct (wait_loop (Datatypes.S (length sc)) x sc _) as [[[x' sc2] lg2] o] eqn:Ew.
     destruct (wait_loop_restat _ _ _ _ _ _ _ _ Ew) as [s [e ->]]. pose proof (wait_loop_occ _ _ _ _ _ _ _ _ i Ew).
     destruct o; [destruct (save _)|]; simpl; norm; rewrite ?jids_restat; simpl; lia.
   - destruct (save ((pre ++ [x]) ++ post ++ app)); [|simpl; norm; simpl; lia].
     destruct seq; [|simpl; norm; simpl; lia].
-    destruct (wait_loop (Datatypes.S (length sc)) x sc lg) as [[[x' sc2] lg2] o] eqn:Ew.
+    destruct (wait_loop (Datatypes.S (length sc)) x sc _) as [[[x' sc2] lg2] o] eqn:Ew.
     destruct (wait_loop_restat _ _ _ _ _ _ _ _ Ew) as [s [e ->]]. pose proof (wait_loop_occ _ _ _ _ _ _ _ _ i Ew).
     destruct o; [destruct (save _)|]; simpl; norm; rewrite ?jids_restat; simpl; lia.
 Qed.
@@ -999,6 +865,13 @@ Proof.
   destruct (save (mem m ++ [j'])); intros H; inversion H; subst; simpl; norm; rewrite Hj; simpl; lia.
 Qed.
 
+Lemma finish_keeps c r m' o' : finish c r = (m', o') -> mem m' = mem (fst r) /\ scr m' = scr (fst r).
+Proof.
+  unfold finish. destruct (write_on_exit c); [|intros ->; split; reflexivity].
+  destruct r as [m o]. destruct (save (mem m)) as [d|]; [destruct (djobs_eq_dec d (disk m))|];
+    intros H; inversion H; subst; split; reflexivity.
+Qed.
+
 (* every operation: the occurrences of an identifier in the group plus the times the server may still issue it never increase *)
 Theorem step_pot m o m' out i : skeleton m -> step cur m o = (m', out) ->
   (pot i (mem m') (scr m') <= pot i (mem m) (scr m))%nat.
@@ -1018,24 +891,28 @@ Proof.
         destruct a; inversion Ep; subst; unfold pot, jids in *; simpl in *; lia.
       * inversion Ep; subst. unfold pot, jids in *; simpl in *; lia.
     + apply (add_job_pot _ _ _ _ _ _ i) in H. unfold pot, jids in *; simpl in *; lia.
-  - unfold launch in H. apply (launch_loop_pot _ _ _ i) in H. simpl in H. rewrite app_nil_r in H. exact H.
+  - unfold launch in H. destruct (launch_loop _ _ _ _ _ _ _ _ _ _ _) as [m2 o2] eqn:El.
+    destruct (finish_keeps _ _ _ _ H) as [E1 E2]. simpl in E1, E2. rewrite E1, E2.
+    apply (launch_loop_pot _ _ _ i) in El. simpl in El. rewrite app_nil_r in El. exact El.
   - unfold launch in H. destruct (update_statuses _) as [m1 o1] eqn:Eu.
     apply (update_statuses_pot _ _ _ i) in Eu. simpl in Eu.
     destruct o1; [|inversion H; subst; exact Eu].
-    apply (launch_loop_pot _ _ _ i) in H. simpl in H. rewrite app_nil_r in H. lia.
+    destruct (launch_loop _ _ _ _ _ _ _ _ _ _ _) as [m2 o2] eqn:El.
+    destruct (finish_keeps _ _ _ _ H) as [E1 E2]. simpl in E1, E2. rewrite E1, E2.
+    apply (launch_loop_pot _ _ _ i) in El. simpl in El. rewrite app_nil_r in El. lia.
   - apply (update_statuses_pot _ _ _ i) in H. exact H.
   - cbn [mem] in H. destruct (nth_error (mem m) k) as [j|] eqn:En; [|inversion H; subst; simpl; lia].
     destruct (sent j) eqn:Es; [|inversion H; subst; simpl; lia].
     rewrite (readd_refused (mkm (mem m) (disk m) (scr m) (rlog m) false) k j En Es) in H. inversion H; subst; simpl; lia.
 Qed.
 
-Lemma run_pot : forall ops m i, Forall good (mem m) -> skeleton m -> DiskOk (disk m) ->
+Lemma run_pot : forall ops m i, Forall good (mem m) -> Exact m ->
   (pot i (mem (run cur m ops)) (scr (run cur m ops)) <= pot i (mem m) (scr m))%nat.
 Proof.
-  induction ops as [|o r IH]; intros m i Hg Hk HD; simpl; [lia|].
+  induction ops as [|o r IH]; intros m i Hg HS; simpl; [lia|].
   destruct (step cur m o) as [m' out] eqn:E. simpl.
-  destruct (step_inv false m o m' out Hg Hk HD) as (A & B & C & _); [intros Hn; discriminate Hn|exact E|].
-  pose proof (step_pot m o m' out i Hk E). specialize (IH m' i A B C). lia.
+  destruct (step_exact m o m' out Hg HS E) as (A & B).
+  pose proof (step_pot m o m' out i (Exact_skeleton _ HS) E). specialize (IH m' i A B). lia.
 Qed.
 
 (* T-core 5c: if the server never issues the same identifier twice, then after every operation of every history
@@ -1048,10 +925,10 @@ Theorem no_identifier_twice : forall sc ops, NoDup (scids sc) ->
 Proof.
   intros sc ops Hnd m.
   destruct (init_good sc) as [Hg HS].
-  pose proof (run_weak ops (init sc) Hg (Exact_skeleton _ HS) (Exact_DiskOk _ Hg HS)) as (_ & Hk & _). fold m in Hk.
+  pose proof (accepted_ids_survive sc ops) as Hk. fold m in Hk.
   assert (Hmem : NoDup (sids (mem m))).
   { apply (NoDup_count_occ Z.eq_dec). intros i.
-    pose proof (run_pot ops (init sc) i Hg (Exact_skeleton _ HS) (Exact_DiskOk _ Hg HS)) as Hp. fold m in Hp.
+    pose proof (run_pot ops (init sc) i Hg HS) as Hp. fold m in Hp.
     unfold pot in Hp. simpl in Hp. pose proof (proj1 (NoDup_count_occ Z.eq_dec (scids sc)) Hnd i) as Hs.
     unfold occ in *. lia. }
   split; [exact Hmem|].
@@ -1103,33 +980,45 @@ Example repaired_witnesses :
   rlog (run cur (init [AOk 10 WAITING]) [OAdd sp_ctx false None false; OReopen; ORun false]).
 Proof. unfold reload_equiv. vm_compute. repeat split. Qed.
 
-(* CURRENT code: the full statement — forall ops sc, reload_equiv (run cur (init sc) ops) — is still false: *)
+(* HISTORICAL, about the code before 9afb11d4 (configuration `before_9afb11d4`: the other two repairs applied, no
+   write on leaving the launch loop): the full statement was false *)
+Definition reload_equiv_b (m : mach) : Prop := map obs (load before_9afb11d4 (disk m)) = map obs (mem m).
 
-(* (c) rerun_failed_parallel RETURNS: `job.is_failed` refreshed a status (WAITING -> RUNNING) and no write followed *)
-Theorem disk_matches_memory_refuted_rerun_loop :
-  exists ops sc, snd (step cur (run cur (init sc) (removelast ops)) (last ops OReopen)) = Returned /\
-                 ~ reload_equiv (run cur (init sc) ops).
+(* (c) rerun_failed_parallel RETURNED: `job.is_failed` refreshed a status (WAITING -> RUNNING) and no write followed *)
+Theorem disk_matches_memory_refuted_rerun_loop_old_code :
+  exists ops sc, snd (step before_9afb11d4 (run before_9afb11d4 (init sc) (removelast ops)) (last ops OReopen)) = Returned /\
+                 ~ reload_equiv_b (run before_9afb11d4 (init sc) ops).
 Proof.
   exists [OAdd (sp 1) true None false; ORerun false false], [AOk 10 WAITING; AOk 11 WAITING; AOk 12 RUNNING].
-  split; [vm_compute; reflexivity|unfold reload_equiv; vm_compute; intros H; discriminate H].
+  split; [vm_compute; reflexivity|unfold reload_equiv_b; vm_compute; intros H; discriminate H].
 Qed.
 
-(* (d) run_sequential RAISES while polling after a status change (WAITING -> RUNNING, then HTTP 500) *)
-Theorem disk_matches_memory_refuted_sequential_wait :
-  exists ops sc, snd (step cur (run cur (init sc) (removelast ops)) (last ops OReopen)) = Raised E_HTTP /\
-                 ~ reload_equiv (run cur (init sc) ops).
+(* (d) run_sequential RAISED while polling after a status change (WAITING -> RUNNING, then HTTP 500) *)
+Theorem disk_matches_memory_refuted_sequential_wait_old_code :
+  exists ops sc, snd (step before_9afb11d4 (run before_9afb11d4 (init sc) (removelast ops)) (last ops OReopen)) = Raised E_HTTP /\
+                 ~ reload_equiv_b (run before_9afb11d4 (init sc) ops).
 Proof.
   exists [OAdd (sp 1) false None false; ORun true], [AOk 10 WAITING; AOk 11 RUNNING].
-  split; [vm_compute; reflexivity|unfold reload_equiv; vm_compute; intros H; discriminate H].
+  split; [vm_compute; reflexivity|unfold reload_equiv_b; vm_compute; intros H; discriminate H].
 Qed.
 
-(* the hypothesis of the partial theorems is satisfiable by a non-trivial history: a job with a result-mapping
-   context, a job filled by keyword, a parallel launch refused at the second job, progress, re-open, launch,
-   a re-run with replacement, a sequential launch *)
-Example hypotheses_satisfiable :
-  let ops := [OAdd sp_ctx false None false; OAdd sp_unfilled false (Some 5) false; ORun false; OProgress;
-              OReopen; ORun false; OProgress; ORerun false true; OProgress; ORun true] in
-  let sc := [AOk 10 WAITING; AFatal; AOk 0 ERROR; AOk 11 WAITING; AOk 0 RUNNING; AOk 0 SUCCESS; AOk 12 WAITING;
-             AOk 0 SUCCESS] in
-  quiet (init sc) ops /\ length (mem (run cur (init sc) ops)) = 2%nat.
-Proof. split; [vm_compute; repeat split|vm_compute; reflexivity]. Qed.
+(* the same two histories on the current code: same outcome (returns / raises HTTPError), exact file, and exactly one
+   more write than before the repair *)
+Definition writes (m : mach) : nat := length (filter (fun r => match r with RWrite => true | _ => false end) (rlog m)).
+Example repaired_launch_witnesses :
+  let h1 := [OAdd (sp 1) true None false; ORerun false false] in
+  let s1 := [AOk 10 WAITING; AOk 11 WAITING; AOk 12 RUNNING] in
+  let h2 := [OAdd (sp 1) false None false; ORun true] in
+  let s2 := [AOk 10 WAITING; AOk 11 RUNNING] in
+  snd (step cur (run cur (init s1) (removelast h1)) (last h1 OReopen)) = Returned /\
+  snd (step cur (run cur (init s2) (removelast h2)) (last h2 OReopen)) = Raised E_HTTP /\
+  writes (run cur (init s1) h1) = Datatypes.S (writes (run before_9afb11d4 (init s1) h1)) /\
+  writes (run cur (init s2) h2) = Datatypes.S (writes (run before_9afb11d4 (init s2) h2)).
+Proof. vm_compute. repeat split. Qed.
+
+(* a classic run (everything accepted, nothing refreshed in between) writes exactly as often as before the repair *)
+Example classic_run_same_writes :
+  let h := [OAdd (sp 1) false None false; OAdd (sp 2) false None false; ORun false; OProgress] in
+  let s := [AOk 10 WAITING; AOk 11 WAITING; AOk 0 SUCCESS; AOk 0 SUCCESS] in
+  writes (run cur (init s) h) = writes (run before_9afb11d4 (init s) h) /\ writes (run cur (init s) h) = 6%nat.
+Proof. vm_compute. split; reflexivity. Qed.
